@@ -14,6 +14,7 @@ Decided clauses:
 from __future__ import annotations
 
 import ast
+import re
 
 from sa.cfg import CFG
 from sa.core import AnalysisError, attr_chain, enclosing, norm, parents, resolve_callee, src, walk_no_nested
@@ -272,34 +273,85 @@ def _helper_compares_identity(p, f, call):
 
 
 def _arm_bodies(p, f):
-    """value-kind arms of Optimizer._optimize: kind -> (statements, name of the matched value), expanding an arm that
-    only delegates to a method of the same class (`return self._optimize_graph(x)`)."""
+    """value-kind arms of the structural rebuild that Optimizer._optimize ends in: kind -> (statements, name of the
+    matched value), plus the names under which the recursion (`self._optimize`) is known inside those statements.
+    The dispatch may sit in _optimize itself or in functions it hands the value to (`return rebuild(x, self._optimize,
+    ..)`, `return self._optimize_graph(x)`, a final `else: return _rebuild_container(x, transform)`): such delegations
+    are followed through the resolved callee, in whatever module it lives."""
     from sa.exh import find_chains
 
-    chains = [c for c in find_chains(p, f) if c.kind == "class"]
-    if not chains:
-        raise AnalysisError("unrecognised idiom: Optimizer._optimize has no isinstance dispatch over value kinds")
-    ch = max(chains, key=lambda c: len(c.arms))
     out = {}
-    # every arm's test belongs to one `if` (of an elif chain or of a sequence of `if ...: return`): its body is the arm
-    for arm in ch.arms:
-        if not arm.body:
-            continue
-        kinds = [c.name for c in arm.classes] + [t.split(".")[-1] for t in arm.other_types]
-        body, xname = arm.body, arm.subject_name
-        if len(body) == 1 and isinstance(body[0], ast.Return) and isinstance(body[0].value, ast.Call) and isinstance(body[0].value.func, ast.Attribute) and isinstance(body[0].value.func.value, ast.Name) and f.cls is not None:
-            m = p.lookup_method(f.cls, body[0].value.func.attr)
-            if m is not None and len(body[0].value.args) == 1 and norm(body[0].value.args[0]) == ch.subject and len(m.params) >= 2:
-                body, xname = m.node.body, m.params[1]
-        for k in kinds:
-            out[k] = (body, xname)
-    return out
+    callables = {"_optimize"}
+    seen = set()
+
+    def delegate(body, subjects, g):
+        body = [st for st in body if not (isinstance(st, ast.Expr) and isinstance(st.value, ast.Constant))]
+        if not (len(body) == 1 and isinstance(body[0], ast.Return) and isinstance(body[0].value, ast.Call)):
+            return None
+        call = body[0].value
+        h, off = None, 0
+        if isinstance(call.func, ast.Attribute) and isinstance(call.func.value, ast.Name) and g.cls is not None and g.params and call.func.value.id == g.params[0]:
+            h, off = p.lookup_method(g.cls, call.func.attr), 1
+        else:
+            r = resolve_callee(p, call, g.module)
+            if r and r[0] == "func" and r[1].cls is None:
+                h = r[1]
+        if h is None or any(isinstance(a, ast.Starred) for a in call.args):
+            return None
+        param = None
+        for i, a in enumerate(call.args):
+            if i + off >= len(h.params):
+                break
+            if norm(a) in subjects and param is None:
+                param = h.params[i + off]
+            elif norm(a).split(".")[-1] in callables:
+                callables.add(h.params[i + off])
+        for k in call.keywords:
+            if k.arg and norm(k.value).split(".")[-1] in callables:
+                callables.add(k.arg)
+        return (h, param) if param is not None else None
+
+    def collect(g, subjects, depth):
+        if g in seen or depth > 4:
+            return
+        seen.add(g)
+        chains = [c for c in find_chains(p, g, open_tail=True) if c.kind == "class"]
+        if not chains:
+            d = delegate(g.node.body[-1:], subjects, g)
+            if d is not None:
+                collect(d[0], {d[1]}, depth + 1)
+            return
+        ch = max(chains, key=lambda c: len(c.arms))
+        # every arm's test belongs to one `if` (of an elif chain or of a sequence of `if ...: return`): its body is the arm
+        for arm in ch.arms:
+            if not arm.body:
+                continue
+            kinds = [c.name for c in arm.classes] + [t.split(".")[-1] for t in arm.other_types]
+            body, xname = arm.body, arm.subject_name
+            d = delegate(body, {ch.subject}, g)
+            if d is not None:
+                body, xname = d[0].node.body, d[1]
+            for k in kinds:
+                out.setdefault(k, (body, xname))
+        # the final `else:` of the chain may hand the remaining kinds to another dispatcher
+        node = ch.head
+        while isinstance(node, ast.If) and len(node.orelse) == 1 and isinstance(node.orelse[0], ast.If):
+            node = node.orelse[0]
+        if isinstance(node, ast.If) and node.orelse:
+            d = delegate(node.orelse, {ch.subject}, g)
+            if d is not None:
+                collect(d[0], {d[1]}, depth + 1)
+
+    collect(f, set(f.params), 0)
+    if not out:
+        raise AnalysisError("unrecognised idiom: Optimizer._optimize has no isinstance dispatch over value kinds (neither itself nor in the function it hands the value to)")
+    return out, callables
 
 
 def r5(p, rep):
     rep.rule("C05.R5", "values that no pattern matched are rebuilt completely", "T-SIB (rebuild completeness per value kind)", floor=5)
     f = p.func("Optimizer._optimize", "tracer.optimizer.optimizer")
-    arms = _arm_bodies(p, f)
+    arms, recursion = _arm_bodies(p, f)
     site = f.loc
 
     def reads(body, x):
@@ -353,10 +405,10 @@ def r5(p, rep):
             rep.add("C05.R5", f"{f.qualname}:rebuild:{kind}", site, ok, f"{kind} rebuilt element-wise without filter" if ok else f"the {kind} arm does not rebuild every element")
     body, x = arms["dict"]
     text = " ".join(norm(st) for st in body)
-    ok = iterates_fully(body, x, items=True) and text.count("_optimize(") >= 2
+    ok = iterates_fully(body, x, items=True) and sum(len(re.findall(r"(?<![A-Za-z0-9_])" + re.escape(c) + r"\(", text)) for c in recursion) >= 2
     rep.add("C05.R5", f"{f.qualname}:rebuild:dict", site, ok, "dict rebuilt over all items, keys and values transformed" if ok else "the dict arm does not rebuild every key and value")
     # tracer branch: delegates to _tracer_transform (checked per class by C04.R4d)
-    fs = common.with_helpers(p, f)
+    fs = common.with_helpers(p, f, depth=3, same_module_only=False)
     ok = any(isinstance(n, ast.Call) and isinstance(n.func, ast.Attribute) and n.func.attr == "_tracer_transform" for n in common.nodes_of(fs))
     rep.add("C05.R5", f"{f.qualname}:rebuild:tracer", f.loc, ok, "tracers are rebuilt by origin._tracer_transform(self._optimize) (completeness per node class: C04.R4)")
 
